@@ -670,6 +670,14 @@ def spec_lines(run):
         for n in nodes:
             if not n.is_flat():
                 lines.append(f"hidden {nidx[id(n)]}")
+        # the edges from a flat test to its composite nodes do not exist before THAT flat test is expanded for the node's worker
+        # (`parse_branches_for_node_and_object` hangs reused and new children below the flat node it expands), even when the
+        # composite node exists already as the dependency of a test of another set: `Trav.edgeCode` (above every node index)
+        for n in nodes:
+            if n.is_flat() and not n.is_shared_root():
+                for c in n.cleanup_nodes:
+                    if not c.is_flat():
+                        lines.append(f"hidden {len(nodes) * (nidx[id(n)] + 1) + nidx[id(c)]}")
     for loc, states in sorted(run.spec.get("pool", {}).items()):
         lines.append(f"pool {loc} " + ",".join(f"{a}:{b}" for a, b in states))
     lines.append("init")
